@@ -23,9 +23,9 @@ ASSUMPTIONS = ['the trace model (LLRP.Model.Race) is the Go memory model restric
                'the race detector only sees the schedules that occur in the runs (seeded random delays, GOMAXPROCS sweep in the thorough tier)']
 TRUSTED = ['access extractor translators/vx/accesses.go (syntactic lock scopes, go-statement order)', 'Go race detector (ThreadSanitizer runtime)']
 
-QUICK = [('llrp', 'neg-keepalive', 150), ('llrp', 'senders', 100), ('llrp', 'close-shutdown', 150), ('llrp', 'neg-fail', 60)]
-THOROUGH_EXTRA = [('llrp', 'handlers', 400)]
-DRIVER_QUICK = [('driver', 'device-lifecycle', 6)]
+QUICK = [('llrp', 'neg-keepalive', 400), ('llrp', 'senders', 300), ('llrp', 'close-shutdown', 400), ('llrp', 'handlers', 300), ('llrp', 'neg-fail', 200)]
+THOROUGH_EXTRA = []
+DRIVER_QUICK = [('driver', 'device-lifecycle', 8)]
 DRIVER_THOROUGH = [('driver', 'device-lifecycle', 40)]
 
 
@@ -171,9 +171,10 @@ def scenario_plan(tier):
         for procs in (1, 2, 4, 16):
             for pkg, name, iters in QUICK + THOROUGH_EXTRA:
                 plan.append((pkg, name, iters * 4, procs))
-        for procs in (2, 16):
+        for procs in (1, 2, 16):
             for pkg, name, iters in DRIVER_THOROUGH:
                 plan.append((pkg, name, iters, procs))
+        plan.append(('driver', 'config-debounce', 2, None))
     return plan
 
 
